@@ -174,15 +174,17 @@ class Runner:
             for s in targets:
                 a, cwd = self.sf_arg(s, op["R"], cwd)
                 args += ["-sf", a]
-            if op.get("dup"):   # the same files named again, directly and through their folders, in other spellings
+            if op.get("dup"):   # the same files named again in other spellings; a named folder again, and one file below it
                 root = w.cpath(tuple(op["R"]))
-                for n, s in enumerate(op["S"]):
+                for n, s in enumerate(sorted(tuple(x) for x in op["S"])):
                     p = w.cpath(tuple(s))
-                    alt = [p, root + "/./" + os.path.relpath(p, root), os.path.dirname(p) + "//" + os.path.basename(p)][(n + len(op["S"])) % 3]
-                    args += ["-sf", alt]
-                    if len(s) > 1:
-                        d = w.cpath(tuple(s[:-1]))
-                        args += ["-sf", [d, os.path.dirname(d) + "/./" + os.path.basename(d), d + "/"][(n + len(s)) % 3]]
+                    if os.path.isdir(p):
+                        args += ["-sf", [p, os.path.dirname(p) + "/./" + os.path.basename(p), p + "/"][(n + len(s)) % 3]]
+                        below = sorted(os.path.join(dp, f) for dp, dn, fs in os.walk(p) for f in fs if "ascmhl" not in dp.split(os.sep) and f != ".DS_Store")
+                        if below:
+                            args += ["-sf", below[0]]
+                    else:
+                        args += ["-sf", [p, root + "/./" + os.path.relpath(p, root), os.path.dirname(p) + "//" + os.path.basename(p)][(n + len(op["S"])) % 3]]
             return C.create, args, cwd
         if k == "verify":
             args = [rootarg]
@@ -339,6 +341,8 @@ class Runner:
         if op["op"] == "infosf" and op.get("R") is None:
             op["R"] = ["-"]
         command, args, cwd = self.build(op)
+        if op.get("v"):
+            args = list(args) + ["-v"]
         res = w.run(command, args, cwd=cwd)
         post_snap = w.snapshot()
         delta = W.World.delta(pre_snap, post_snap)
